@@ -4,4 +4,5 @@ pub mod mon;
 pub mod props;
 pub mod refcal;
 pub mod refinst;
+pub mod reftz;
 pub mod rng;
